@@ -29,7 +29,7 @@ def utils_oracle(obs, result, minmax, rng):
         runmod._v(obs, "C15", {"kind": kind}, detail)
 
     idxs = sorted({0, min_size - 1, rng.randrange(min_size), rng.randrange(min_size)})
-    subsets = [None, [n_gen - 1], [rng.randrange(n_gen) for _ in range(rng.randint(1, 6))],
+    subsets = [None, [n_gen - 1], [-1, 0, -n_gen], [rng.randrange(n_gen) for _ in range(rng.randint(1, 6))],
                sorted(range(n_gen), key=lambda _: rng.random())[: rng.randint(1, n_gen)]]
     for idx in idxs:
         for iters in subsets:
@@ -44,6 +44,7 @@ def utils_oracle(obs, result, minmax, rng):
                 viol("utility-length", f"idx={idx} iters={iters}: {len(trend)}/{len(posn)} entries for {len(its)} iterations")
                 return judged
             for t, p, i in zip(trend, posn, its):
+                i = i % n_gen          # negative iteration numbers count from the end, as everywhere in Python
                 r = ranked(i)
                 if r is None:
                     continue
